@@ -21,7 +21,7 @@ AIGER = ['aiger:aag', 'aiger:aig']
 # property -> bounded native stand-in suites (standin/src/*.rs); bounded, never counted as proved
 STANDIN_FOR = {
     'C01': FMT_SUITES, 'C02': ['reader'], 'C03': [s for s in FMT_SUITES if 'satlog' not in s and 'stream' not in s] + AIGER + DIMACS, 'C04': FMT_SUITES, 'C05': FMT_SUITES,
-    'C06': DIMACS + AIGER, 'C07': DIMACS + ['dimacs:satlog'], 'C08': FMT_SUITES + DIMACS + ['aiger:aag'], 'C09': STREAMING + ['reader'], 'C10': ['reader', 'mem'], 'C11': ['writer'],
+    'C06': DIMACS + AIGER, 'C07': DIMACS + ['dimacs:satlog'], 'C08': FMT_SUITES + DIMACS + AIGER, 'C09': STREAMING + ['reader'], 'C10': ['reader', 'mem'], 'C11': ['writer'],
     'C12': ['renumber'], 'C13': ['scan'], 'C14': ['reader', 'raw'], 'C16': ['scan'],
 }
 SUITE_FN = {
